@@ -9,6 +9,11 @@ GROUPS = ['GenAsync', 'GenStruct']
 SHAPES = ['ValueError', 'CustomError', 'AttrError', 'SystemExit', 'KeyboardInterrupt', 'Cancelled', 'BaseExc',
           'Unpicklable', 'LambdaAttr', 'LocalClass', 'NestedArgs']
 LIMIT = {'fork': 12, 'threading': 12, 'forkserver': 20, 'spawn': 25}
+CAL = {}          # seconds a trivial pool life cycle takes right now, per start method (runner.calibrate)
+
+
+def limit(sm):
+    return LIMIT[sm] + 6.0 * CAL.get(sm, 0.0)
 
 
 def gen(rng, k, tier, sms):
@@ -179,7 +184,7 @@ def oracle_history(rec):
             return (f"history: call base={c['base']} raised {exc['type']}{exc['args'][:120]} which none of ITS user functions raised "
                     f"(they raised {mine[:3]}); it matches {other[:2]} raised in another call of this pool" if other else
                     f"history: call base={c['base']} raised {exc['type']}{exc['args'][:120]} which matches nothing its user functions raised: {mine[:3]}")
-        if o['wall'] > LIMIT[sc['pool']['start_method']]:
+        if o['wall'] > limit(sc['pool']['start_method']):
             return f"history: call base={c['base']} took {o['wall']:.1f}s to raise"
     return None
 
@@ -230,8 +235,8 @@ def oracle(rec):
     if all(ph == 'task' for _, _, ph in matching) and not any(str(key) in cause for _, key, _ in matching):
         return f"the cause does not show the failing task's arguments {[k for _, k, _ in matching][:3]}: {cause[:300]!r}"
     # (3) promptly
-    if out['wall'] > LIMIT[sm]:
-        return f"the failing call took {out['wall']:.1f}s (> {LIMIT[sm]}s) to raise"
+    if out['wall'] > limit(sm):
+        return f"the failing call took {out['wall']:.1f}s (> {limit(sm):.1f}s) to raise"
     # (4) everything yielded before the raise is a correct result
     part = out.get('partial', [])
     if call.get('input') == 'ndarray':
@@ -273,6 +278,7 @@ def run(ctx):
     rng = random.Random(ctx['seed'] + 4)
     t0 = time.time()
     proof = build_props('C04', GROUPS)
+    CAL.update(runner.calibrate())
     quick = ctx['tier'] == 'quick'
     sms = ['fork', 'fork', 'fork', 'threading', 'forkserver', 'spawn'] if quick else ['fork', 'fork', 'threading', 'forkserver', 'spawn']
     scens = [gen(rng, k, ctx['tier'], sms) for k in range(72 if quick else 700)]
@@ -329,6 +335,7 @@ def run(ctx):
 
 
 def replay(payload):
+    CAL.update(runner.calibrate())
     recs = runner.run_many([payload['scenario']], 'replay', jobs=1, keep=True)
     bad, hangs = analyse(recs)
     print("status:", recs[0]['status'])
